@@ -207,11 +207,13 @@ int main(int argc, char **argv) {
                 int li = DEC_LANGS[k]; char good_ph[2048]; ref_phrase(&rs, li, 1, good_ph, 0);
                 struct { const char *name; int st; int fail; unsigned mask; unsigned coin; int mut; } DC[] = {
                     { "ok", POLYSEED_OK, 0, 7, 1, 0 }, { "num_words", POLYSEED_ERR_NUM_WORDS, 0, 7, 1, 1 }, { "lang", POLYSEED_ERR_LANG, 0, 7, 1, 2 },
-                    { "checksum", POLYSEED_ERR_CHECKSUM, 0, 7, 2, 0 }, { "memory", POLYSEED_ERR_MEMORY, 1, 7, 1, 0 }, { "unsupported", POLYSEED_ERR_UNSUPPORTED, 0, 0, 1, 0 } };
+                    { "checksum", POLYSEED_ERR_CHECKSUM, 0, 7, 2, 0 }, { "memory", POLYSEED_ERR_MEMORY, 1, 7, 1, 0 }, { "unsupported", POLYSEED_ERR_UNSUPPORTED, 0, 0, 1, 0 },
+                    { "too_many_words", POLYSEED_ERR_NUM_WORDS, 0, 7, 1, 3 } };
                 for (unsigned c = 0; c < sizeof DC / sizeof *DC; c++) {
                     char cell[48]; snprintf(cell, sizeof cell, "%s/%s-%s", FNAME[fn], DC[c].name, RL[li].code); if (!WANT(cell)) continue;
                     strcpy(J.phrase, good_ph);
                     if (DC[c].mut == 1) *strrchr(J.phrase, ' ') = 0;                         /* 15 words */
+                    if (DC[c].mut == 3) { char extra[300]; char *sp = strchr(J.phrase, ' '); size_t k = sp ? (size_t)(sp - J.phrase) : strlen(J.phrase); memcpy(extra, J.phrase, k); extra[k] = 0; strcat(J.phrase, " "); strcat(J.phrase, extra); strcat(J.phrase, " "); strcat(J.phrase, extra); }   /* 18 words: the first word twice more */
                     if (DC[c].mut == 2) { char *sp = strrchr(J.phrase, ' '); strcpy(sp + 1, "qzqzqzq"); }   /* unknown last word */
                     NND = base_nd; { char nf[2048]; u_nfkd(J.phrase, nf, sizeof nf - 1); nd_phrase_words(nf, "phrase-word(NFKD)"); nd_phrase_words(J.phrase, "phrase-word(as typed)"); }
                     /* the caller's own copy of the phrase is on the heap (J.phrase) */
